@@ -563,7 +563,14 @@ macro_rules! cast {
         {
             match v {
                 Val::$variant(x) => Val::$variant(x),
-                Val::$other_variant(x) => Val::$variant($T::from(x).unwrap()),
+                Val::$other_variant(x) => match $T::from(x) {
+                    Some(converted) => Val::$variant(converted),
+                    None => Val::Error(exerr!(
+                        "cannot convert '{:?}' to {}",
+                        x,
+                        stringify!($variant)
+                    )),
+                },
                 Val::Bool(x) => Val::$variant(if x { $T::one() } else { $T::zero() }),
                 _ => Val::Error(exerr!("cannot convert '{:?}' to float", v)),
             }
